@@ -197,6 +197,54 @@ func (p *Prog) globalInput() symInput {
 			}
 		}
 	}
+	// package-level arrays and structs that nothing outside init can change (a dispatch table of constructors): their
+	// cells are what the initialiser stored, obtained by evaluating the stores of init that address them
+	if init := p.SSA.Func("init"); init != nil {
+		for _, b := range init.Blocks {
+			for _, ins := range b.Instrs {
+				st, ok := ins.(*ssa.Store)
+				if !ok {
+					continue
+				}
+				var g *ssa.Global
+				path := ""
+				switch a := st.Addr.(type) {
+				case *ssa.IndexAddr:
+					if gl, ok := a.X.(*ssa.Global); ok {
+						if k, isC := constInt(a.Index); isC {
+							g, path = gl, fmt.Sprintf("G:%s[%d]", gl.Name(), k)
+						}
+					}
+				case *ssa.FieldAddr:
+					if gl, ok := a.X.(*ssa.Global); ok {
+						g, path = gl, fmt.Sprintf("G:%s.f%d", gl.Name(), a.Field)
+					}
+				}
+				if g == nil || !p.initOnlyGlobal(g) {
+					continue
+				}
+				switch v := st.Val.(type) {
+				case *ssa.Function:
+					vals[path] = sv{k: 'c', fn: v}
+				case *ssa.MakeClosure:
+					if len(v.Bindings) == 0 {
+						if f, ok := v.Fn.(*ssa.Function); ok {
+							vals[path] = sv{k: 'c', fn: f}
+						}
+					}
+				case *ssa.Const:
+					if k, isC := constInt(v); isC {
+						vals[path] = sv{k: 'i', i: k}
+					}
+				}
+				if _, set := vals[path]; set {
+					if cur, has := vals["G:"+g.Name()]; !has || cur.k == 'u' {
+						vals["G:"+g.Name()] = sv{k: 'S', addr: "G:" + g.Name()}
+					}
+				}
+			}
+		}
+	}
 	return func(path string, t types.Type) (sv, bool) {
 		if v, ok := vals[path]; ok {
 			return v, true
@@ -585,6 +633,121 @@ func isWirePrimitive(fn *ssa.Function) bool {
 	return true
 }
 
+// bulkWriter: what a verified bulk list writer copies: a parameter (index) or a field of its receiver.
+type bulkWriter struct {
+	param, field int // one of them >= 0
+	elem         types.Type
+}
+
+// bulkListWriter: fn is a function of the fill family that is not a wire type's encoder and does exactly one thing
+// to the buffer: `copy(buf[off:], list)` of a byte-sized list that is one of its parameters or a field of its
+// receiver, under a guard that makes the copy complete (len(buf) >= off+len(list) proven where the copy is made),
+// and returns len(list) on every path.  Such a function writes len(list) one-byte items, in order.
+func (p *Prog) bulkListWriter(fn *ssa.Function) (*bulkWriter, bool) {
+	key := "bulkw:" + qname(fn)
+	if v, ok := p.cache[key]; ok {
+		w, _ := v.(*bulkWriter)
+		return w, w != nil
+	}
+	p.cache[key] = (*bulkWriter)(nil)
+	if fn == nil || fn.Blocks == nil || !isFillFamily(fn) || !p.inMQ(fn) || len(AllLoops(fn)) > 0 {
+		return nil, false
+	}
+	if fn.Signature.Recv() != nil {
+		rt := fn.Signature.Recv().Type()
+		if pt, ok := rt.Underlying().(*types.Pointer); ok {
+			rt = pt.Elem()
+		}
+		if p.wireKindOf(rt) != "" {
+			return nil, false
+		}
+	}
+	buf, off, ems, _ := emissionsOf(p, fn)
+	if buf == nil || len(ems) != 0 {
+		return nil, false
+	}
+	var cp *ssa.Call
+	for _, b := range fn.Blocks {
+		for _, ins := range b.Instrs {
+			switch x := ins.(type) {
+			case *ssa.Store:
+				if ia, ok := x.Addr.(*ssa.IndexAddr); ok && ia.X == ssa.Value(buf) {
+					return nil, false
+				}
+			case *ssa.Call:
+				if bi, ok := x.Call.Value.(*ssa.Builtin); ok {
+					if bi.Name() == "copy" {
+						if cp != nil {
+							return nil, false
+						}
+						cp = x
+					}
+					continue
+				}
+				for _, a := range x.Call.Args {
+					if a == ssa.Value(buf) {
+						return nil, false // the buffer handed on
+					}
+					if sl, ok := a.(*ssa.Slice); ok && sl.X == ssa.Value(buf) {
+						return nil, false
+					}
+				}
+			}
+		}
+	}
+	if cp == nil {
+		return nil, false
+	}
+	dst, ok := cp.Call.Args[0].(*ssa.Slice)
+	if !ok || dst.X != ssa.Value(buf) || dst.Low != ssa.Value(off) || dst.High != nil {
+		return nil, false
+	}
+	src := cp.Call.Args[1]
+	for {
+		if ct, ok := src.(*ssa.ChangeType); ok {
+			src = ct.X
+			continue
+		}
+		break
+	}
+	w := &bulkWriter{param: -1, field: -1}
+	st, ok := src.Type().Underlying().(*types.Slice)
+	if !ok {
+		return nil, false
+	}
+	if bt, ok := st.Elem().Underlying().(*types.Basic); !ok || p.U.Sizes.Sizeof(bt) != 1 {
+		return nil, false
+	}
+	w.elem = st.Elem()
+	switch x := src.(type) {
+	case *ssa.Parameter:
+		w.param = paramIndex(fn, x)
+	case *ssa.UnOp:
+		fa, ok := x.X.(*ssa.FieldAddr)
+		if x.Op != token.MUL || !ok || len(fn.Params) == 0 || fa.X != ssa.Value(fn.Params[0]) {
+			return nil, false
+		}
+		w.field = fa.Field
+	default:
+		return nil, false
+	}
+	pr := NewProver(p, fn)
+	pr.assumeContracts()
+	sl := pr.lenOf(cp.Call.Args[1])
+	if !pr.Prove(cp.Block(), pr.lenOf(buf).sub(pr.lin(off)).sub(sl)) {
+		return nil, false
+	}
+	for _, b := range fn.Blocks {
+		if ret, ok := terminator(b).(*ssa.Return); ok {
+			if len(ret.Results) != 1 || !pr.lin(ret.Results[0]).equal(sl) {
+				return nil, false
+			}
+		}
+	}
+	p.cache[key] = w
+	return w, true
+}
+
 func (p *Prog) encoderTrace(st *packetState, fill *ssa.Function) ([]layoutEvent, int64, string) {
 	ctx := p.newSym(p.globalInput())
 	for k, v := range st.Mem {
@@ -596,6 +759,42 @@ func (p *Prog) encoderTrace(st *packetState, fill *ssa.Function) ([]layoutEvent,
 	var evs []layoutEvent
 	inPrim := 0
 	ctx.hook = func(c *symCtx, callee *ssa.Function, args []sv) ([]sv, bool, bool) {
+		// a verified bulk writer of a byte list: one one-byte item per element, in order
+		if bw, ok := p.bulkListWriter(callee); ok && inPrim == 0 {
+			if bb, _, _, _ := emissionsOf(p, callee); bb == nil || paramIndex(callee, bb) >= len(args) || args[paramIndex(callee, bb)].addr != "REAL" {
+				return nil, false, true // a dry run: evaluated like any other function, nothing is emitted
+			}
+			inPrim++
+			saved := c.hook
+			rs, okE := c.evalPure(callee, args, nil, 1)
+			c.hook = saved
+			inPrim--
+			if !okE || len(rs) != 1 || rs[0].k != 'i' {
+				return nil, true, false
+			}
+			var src sv
+			if bw.param >= 0 && bw.param < len(args) {
+				src = args[bw.param]
+			} else if bw.field >= 0 && len(args) > 0 && args[0].k == 'p' {
+				v, okR := c.read(fmt.Sprintf("%s.f%d", c.aggPath(args[0].addr), bw.field), types.NewSlice(bw.elem))
+				if !okR {
+					return nil, true, false
+				}
+				src = v
+			}
+			if src.k != 's' || src.i != rs[0].i {
+				return nil, true, c.fail("bulk writer %s: the list written is not what it reports", qname(callee))
+			}
+			for k := int64(0); k < src.i; k++ {
+				ep := fmt.Sprintf("%s[%d]", src.addr, src.off+k)
+				val, okV := c.mem[ep]
+				if !okV {
+					val = sv{k: 'u'}
+				}
+				evs = append(evs, layoutEvent{Op: "fill", Wire: typeStr(bw.elem), Kind: "byte", Src: ep, Val: val, Width: 1, Pos: p.Pos(callee.Pos())})
+			}
+			return rs, true, true
+		}
 		if !isWirePrimitive(callee) || inPrim > 0 || len(args) < 3 || args[1].addr != "REAL" {
 			return nil, false, true
 		}
@@ -848,6 +1047,12 @@ func (p *Prog) decoderReplay(tn string, header sv, toks []wireToken, total int64
 		}
 		missing := sv{k: 'I', tup: []sv{{k: 'p', addr: "R:missing"}}}
 		if pos >= len(toks) {
+			// a decoder that takes whatever is left as it is (raw data) takes nothing, or — where the body carries
+			// no tokens at all (the reserved type 0) — the body as a whole
+			if pt, ok := callee.Signature.Recv().Type().Underlying().(*types.Pointer); ok && p.wireKindOf(pt.Elem()) == "raw" && args[0].k == 'p' {
+				c.mem[args[0].addr] = sv{k: 's', i: args[1].i, addr: "spec:rest"}
+				return []sv{{k: 'z'}}, true, true
+			}
 			return []sv{missing}, true, true
 		}
 		tk := toks[pos]
@@ -940,6 +1145,33 @@ func (p *Prog) decoderReplay(tn string, header sv, toks []wireToken, total int64
 		pos++
 		offs += tk.Width
 		return []sv{{k: 'z'}}, true, true
+	}
+	// a bulk copy out of the body (`copy(p.reasonCodes, data[b.i:])`): each byte copied is the next one-byte item
+	// of the frame
+	ctx.copyHook = func(c *symCtx, dst, src sv, n int64) (bool, bool) {
+		if src.k != 's' || src.addr != bodyAddr || dst.k != 's' || dst.addr == "" {
+			return false, true
+		}
+		if src.off != offs && res.Mismatch == "" {
+			res.Mismatch = fmt.Sprintf("a bulk copy starts at offset %d of the body; the items decoded so far end at %d", src.off, offs)
+			return true, true
+		}
+		for k := int64(0); k < n; k++ {
+			if pos >= len(toks) {
+				break
+			}
+			tk := toks[pos]
+			if tk.Width != 1 || !(tk.Kind == "byte" || tk.Kind == "bool") {
+				if res.Mismatch == "" {
+					res.Mismatch = fmt.Sprintf("token %d (%s, %s) is copied as a plain byte", pos, tk.Kind, tk.What)
+				}
+				return true, true
+			}
+			c.mem[fmt.Sprintf("%s[%d]", dst.addr, dst.off+k)] = tk.Val
+			pos++
+			offs++
+		}
+		return true, true
 	}
 	rs, ok := ctx.evalPure(rp, []sv{{k: 'I', tup: []sv{{k: 'p', addr: "R:stream"}}}}, nil, 0)
 	res.Consumed = pos
